@@ -18,6 +18,7 @@ e (added)  keyed (partial) resets must cover every dependent tag; recorded slots
 h (added)  reset() overrides write nothing but the cache (the load path calls reset() after restoring state)
 i  hand-rolled caches anywhere in the package: key completeness (hv.memo)
 b (round 3)  a parameter enters the key whole: no lossy projection (round, //, len, ...), no selection of fields of an object the factory hands on whole
+h (round 5)  __setstate__ hooks leave the parked computed state (_computed_properties_to_restore) alone
 d (round 4)  create_* methods of the services never memoise the object they create
 f (round 4)  no `numeric_parameter or default` (0 is a value); facade -> service argument binding over the whole facade (rules/common.py)
 h (round 4)  load_*_inplace adopts the loaded object's whole attribute dictionary or rebuilds the services
@@ -987,6 +988,17 @@ def _h_reload(chk):
                 continue
             n += 1
             ok = hook is not None and any(isinstance(c, ast.Call) and isinstance(c.func, ast.Attribute) and c.func.attr == "_setup_services" for c in ast.walk(hook[2]))
+            # ... and the hook leaves the pickled computed state alone: _HitenBase.__setstate__ parks it in _computed_properties_to_restore and
+            # _setup_services puts it back onto the rebuilt services; a hook that empties / replaces it reloads the object in its constructor state
+            if hook is not None:
+                wipes = [ast.unparse(st)[:70] for st in ast.walk(hook[2]) if isinstance(st, (ast.Assign, ast.AugAssign, ast.Delete))
+                         for t in (st.targets if isinstance(st, (ast.Assign, ast.Delete)) else [st.target])
+                         if isinstance(t, ast.Attribute) and t.attr == "_computed_properties_to_restore"]
+                wipes += [ast.unparse(c)[:70] for c in ast.walk(hook[2]) if isinstance(c, ast.Call) and isinstance(c.func, ast.Attribute) and c.func.attr in ("clear", "pop", "popitem")
+                          and "_computed_properties_to_restore" in ast.unparse(c.func.value)]
+                chk.check(not wipes, "C20.h", f"{m.name}::{cls.name}.__setstate__[restored state]",
+                          f"{hook[1].name}.__setstate__ discards the pickled computed state before the services are rebuilt ({wipes}): whatever differed from the constructor "
+                          f"arguments (a changed degree, a corrected state) is lost on load", sample=f"{cls.name}: __setstate__ does not touch _computed_properties_to_restore", nontrivial=False)
             chk.check(ok, "C20.h", f"{m.name}::{cls.name}.__setstate__",
                       f"{cls.name} can be unpickled without rebuilding its services (no __setstate__ calling _setup_services in its hierarchy below _HitenBase): a reloaded "
                       f"object would carry no / stale services", sample=f"{cls.name}: __setstate__ -> _setup_services(...)", nontrivial=False)
